@@ -213,10 +213,21 @@ def check(ctx):
     # --------------------------------------------------------------- C15.3
     A = _args_attr
 
+    def _kitti_test(a: T):
+        return a.op == "cmp" and a.args[0] in ("Eq", "NotEq") and \
+            tm.is_const(a.args[2], "kitti")
+
+    def timed(t: T) -> T:
+        """the value for the timestamped formats (tum / euroc / bag), which
+        are the ones that go through the documented association step; the
+        index-based kitti branch is judged separately"""
+        return tm.select(t, lambda a: (a.args[0] == "NotEq")
+                         if _kitti_test(a) else None)
+
     def wired(rule_key, e, pname, want: T, what):
         b = e.data.get("bound") or {}
         got = b.get(pname)
-        ok = got is want
+        ok = got is want or (got is not None and timed(got) is want)
         ctx.ob("C15.3", e, ok,
                f"{what}: {pname} <- {fmt(want)}" if ok else
                f"{what}: parameter `{pname}` receives {fmt(got)}, expected "
@@ -267,9 +278,18 @@ def check(ctx):
         bb = e.data["bound"] or {}
         ref = bb.get("traj_ref")
         alts = tm.strip_ite(ref) if ref is not None else []
+
+        def plain_ref(a: T) -> bool:
+            # the reference itself or a private copy of it
+            while is_call_to(a, "copy.deepcopy", "copy.copy") and \
+                    len(a.args[1]) == 1:
+                a = a.args[1][0]
+            return a is ref_traj
         ok = ref is not None and synced_ref in alts and \
-            all(a in (synced_ref, ref_traj) for a in alts) and \
-            (len(alts) == 1 or _kitti_ite(ref, ref_traj, synced_ref))
+            all(a is synced_ref or plain_ref(a) for a in alts) and \
+            (len(alts) == 1 or (
+                ref.op == "ite" and _kitti_test(ref.args[0]) and
+                timed(ref) is synced_ref))
         ctx.ob("C15.3", e, ok,
                f"{nm}: aligned to the *associated* reference (the full "
                f"reference only in the index-based kitti case)" if ok else
